@@ -127,7 +127,8 @@ class PathState:
 
 class Exec:
     def __init__(self, f, call_handler, havoc=None, word_args=(), unroll=False, arg_consts=None, int_cells=None, auto=False,
-                 split_max=8, starts=None, pre_conds=(), callee_writes=None, word_phis=None, fresh_per_entry=False, exit_eq=None, unrotate=False):
+                 split_max=8, starts=None, pre_conds=(), callee_writes=None, word_phis=None, fresh_per_entry=False, exit_eq=None, unrotate=False,
+                 head_consts=None):
         """call_handler(ex, path, inst, callee, argvalues) -> result value or None
         havoc(ex, path, header) is called when a fresh iteration starts at a loop header"""
         self.f = f
@@ -149,6 +150,7 @@ class Exec:
         self.fresh_per_entry = fresh_per_entry
         self.exit_eq = exit_eq or {}      # header block -> (phi inst id, Lf): value of that induction variable when the loop is left through its header test
         self.callee_writes = callee_writes or {}   # callee -> {arg index: (offset, nbytes)} it may write (else: whole object)
+        self.head_consts = dict(head_consts or {})  # phi id -> concrete value the generic iteration starts with (a loop-carried helper index with a finite orbit)
         # guarded bottom-tested loops ("if (n >= 4) do { ... } while (n >= 4);") summarised as the top-tested loop they are equivalent to:
         # guard block -> description, latch block -> description (see _find_rotated)
         self.rot_guard, self.rot_latch = {}, {}
@@ -513,12 +515,12 @@ class Exec:
                 follow = True       # continuing in the middle of this block: no loop-head bookkeeping
             elif b in self.rot_heads:
                 follow = True       # the head of an un-rotated loop is an ordinary block: the cut is at its guard and at its latch test
-            elif self.auto and b in self.heads and pred != "fresh" and b != origin:
-                # (a generic iteration that started at this head ends when it comes back to it, decided or not)
-                follow = self._header_decided(p, b, pred, exit_only=(b == own))
+            elif self.auto and b in self.heads and pred != "fresh":
+                # (a generic iteration that started at this head ends when it comes back to it - unless the test is decided to leave the loop)
+                follow = self._header_decided(p, b, pred, exit_only=(b == own or b == origin))
                 if len(p.blocks) > 6000:
                     raise Broken("irx(auto): path too long in %s" % f.name)
-                if not follow:
+                if not follow and b != origin:
                     sp = self._header_split(p, b, pred)
                     if sp:
                         # the exit test depends on a value with a small finite range on this path (a residue): one case per value
@@ -566,7 +568,9 @@ class Exec:
                             if I.op != "phi":
                                 break
                             ty = I.get("ty") or ""
-                            if ty.endswith("*"):
+                            if I.id in self.head_consts:
+                                n.env[("i", I.id)] = Lf.c(self.head_consts[I.id])
+                            elif ty.endswith("*"):
                                 n.env[("i", I.id)] = Lf.s(("hdp", I.id))
                             elif I.bits and (is_word(q.env.get(("init", I.id))) or (self.word_phis and self.word_phis(I, q.env.get(("init", I.id))))):
                                 n.env[("i", I.id)] = gf2.sym_word(("hdw", I.id), I.bits)
